@@ -1200,7 +1200,7 @@ impl<const N: usize> ScenN<N> {
                 let _ = std::fs::remove_file(&op0);
                 std::fs::write(&ip0, &v0).unwrap();
                 n += 1;
-                match migrate_blob(&ip0, &op0, 1, 1) {
+                match migrate_blob(&ip0, &op0, [1usize, 0, 2][n % 3], 1) {
                     Ok(()) => {
                         let out = std::fs::read(&op0).unwrap_or_default();
                         if out != bytes {
@@ -1256,12 +1256,26 @@ impl<const N: usize> ScenN<N> {
                     break 'outer;
                 }
                 if what == "blob magic" {
+                    // nothing can be recovered from a blob without a valid blob header: the tool may refuse, but
+                    // whatever it leaves at the output path must be a blob that validates
+                    for skip in [false, true] {
+                        let op = work.join("recovered.blob");
+                        let _ = std::fs::remove_file(&op);
+                        let r = recovery_blob(&dp, &op, 1, skip);
+                        if op.exists() && validate_blob(&op).is_err() {
+                            bad = Some(format!("{}: recovery (skip={}) of {} returned {} and left an output file that does not validate ({} bytes)",
+                                bname, skip, what, if r.is_ok() { "Ok" } else { "Err" }, std::fs::metadata(&op).map(|m| m.len()).unwrap_or(0)));
+                            break 'outer;
+                        }
+                    }
                     continue;
                 }
+                // the read-back validation batch of the writer: every record, none, every third
+                let validate_every = [1usize, 0, 3][ci % 3];
                 for skip in [false, true] {
                     let op = work.join("recovered.blob");
                     let _ = std::fs::remove_file(&op);
-                    let r = recovery_blob(&dp, &op, 1, skip);
+                    let r = recovery_blob(&dp, &op, validate_every, skip);
                     if let Err(e) = r {
                         bad = Some(format!("{}: recovery (skip={}) of {} failed: {}", bname, skip, what, e));
                         break 'outer;
@@ -1588,6 +1602,9 @@ impl<const N: usize> ScenN<N> {
                 pearl::verif::Action::Fail(e.parse().unwrap_or(5))
             } else if let Some(n) = toks[4].strip_prefix("short:") {
                 pearl::verif::Action::Short(n.parse().unwrap_or(0))
+            } else if let Some(g) = toks[4].strip_prefix("pause:") {
+                // the operation blocks inside its blocking closure until `release <gate>`
+                pearl::verif::Action::Pause(g.parse().unwrap_or(1))
             } else {
                 return "bad-op".into();
             };
@@ -1598,6 +1615,29 @@ impl<const N: usize> ScenN<N> {
                 action,
                 sticky: toks.get(5).copied() == Some("sticky"),
             });
+            return "ok".into();
+        }
+        if toks[0] == "releaselater" && toks.len() >= 3 {
+            // releaselater <gate> <ms>: open the gate from another thread after <ms> (a stalled file operation)
+            let g: u64 = toks[1].parse().unwrap_or(1);
+            let ms: u64 = toks[2].parse().unwrap_or(300);
+            std::thread::spawn(move || {
+                std::thread::sleep(Duration::from_millis(ms));
+                pearl::verif::release(g);
+            });
+            return "ok".into();
+        }
+        if toks[0] == "release" && toks.len() >= 2 {
+            // release <gate>: let the closures paused on the gate go on, and wait until no closure is in flight
+            pearl::verif::release(toks[1].parse().unwrap_or(1));
+            let st = self.st.take();
+            self.rt.block_on(async {
+                let deadline = tokio::time::Instant::now() + Duration::from_secs(20);
+                while pearl::verif::inflight() != 0 && tokio::time::Instant::now() < deadline {
+                    tokio::time::sleep(Duration::from_millis(1)).await;
+                }
+            });
+            self.st = st;
             return "ok".into();
         }
         if toks[0] == "clearfaults" {
@@ -1700,6 +1740,7 @@ impl<const N: usize> ScenN<N> {
         if toks[0] == "cancel" && toks.len() >= 3 {
             // cancel <k> <op...>: poll the operation future k times, then drop it; detached blocking closures finish
             let k: usize = toks[1].parse().unwrap_or(1);
+            let until_paused = toks[1] == "p";
             let inner: Vec<String> = toks[2..].iter().map(|x| x.to_string()).collect();
             let mut st = match self.st.take() {
                 Some(s) => s,
@@ -1710,17 +1751,46 @@ impl<const N: usize> ScenN<N> {
             let res = self.rt.block_on(async {
                 let toks2: Vec<&str> = inner.iter().map(|x| x.as_str()).collect();
                 let fut = Self::exec_async(&mut st, &dir, &toks2, &mut data_tab);
+                if until_paused {
+                    // `cancel p <op>`: drive the operation until one of its blocking closures waits at a `pause`
+                    // failpoint, then drop the future while that closure is still in flight
+                    // safety net: an operation that blocks in place (multi-thread runtime, small record) cannot be
+                    // dropped while it is paused; its gate opens by itself after 0.7 s
+                    std::thread::spawn(|| {
+                        std::thread::sleep(Duration::from_millis(700));
+                        for g in pearl::verif::paused_gates() {
+                            pearl::verif::release(g);
+                        }
+                    });
+                    let mut fut = Box::pin(fut);
+                    let deadline = tokio::time::Instant::now() + Duration::from_secs(20);
+                    let out = loop {
+                        tokio::select! {
+                            biased;
+                            o = &mut fut => break Some(o),
+                            _ = tokio::time::sleep(Duration::from_millis(2)) => {
+                                if !pearl::verif::paused_gates().is_empty() || tokio::time::Instant::now() > deadline {
+                                    break None;
+                                }
+                            }
+                        }
+                    };
+                    drop(fut);
+                    return Ok((out, 0usize));
+                }
                 let r = tokio::time::timeout(Duration::from_secs(60), PollN { fut: Some(Box::pin(fut)), left: k, polls: 0 }).await;
                 r
             });
             // wait for closures that were already started (they are not cancelled with the future)
-            self.rt.block_on(async {
+            if !until_paused {
+              self.rt.block_on(async {
                 let deadline = tokio::time::Instant::now() + Duration::from_secs(20);
                 while pearl::verif::inflight() != 0 && tokio::time::Instant::now() < deadline {
                     tokio::time::sleep(Duration::from_millis(1)).await;
                 }
                 Self::quiesce(&st).await;
-            });
+              });
+            }
             self.data = data_tab;
             self.st = Some(st);
             return match res {
@@ -1942,17 +2012,26 @@ impl<const N: usize> ScenN<N> {
             },
             "close_active_bg" => {
                 st.close_active_blob_in_background().await;
-                Self::drain(st).await;
+                // `@nodrain`: return at once, the request stays queued for the worker
+                if !toks.contains(&"@nodrain") {
+                    Self::drain(st).await;
+                }
                 "ok".into()
             }
             "create_active_bg" => {
                 st.create_active_blob_in_background().await;
-                Self::drain(st).await;
+                // `@nodrain`: return at once, the request stays queued for the worker
+                if !toks.contains(&"@nodrain") {
+                    Self::drain(st).await;
+                }
                 "ok".into()
             }
             "restore_active_bg" => {
                 st.restore_active_blob_in_background().await;
-                Self::drain(st).await;
+                // `@nodrain`: return at once, the request stays queued for the worker
+                if !toks.contains(&"@nodrain") {
+                    Self::drain(st).await;
+                }
                 "ok".into()
             }
             "force" => {
@@ -2174,6 +2253,12 @@ impl<const N: usize> ScenN<N> {
                     }
                 }
                 let mut corrfiles = 0usize;
+                let mut both = 0usize;
+                let work_ids: std::collections::BTreeSet<usize> = std::fs::read_dir(dir).map(|rd| rd.flatten().filter_map(|e| {
+                    let name = e.file_name().to_string_lossy().to_string();
+                    let f: Vec<&str> = name.split('.').collect();
+                    if f.len() == 3 && f[2] == "blob" { f[1].parse::<usize>().ok() } else { None }
+                }).collect()).unwrap_or_default();
                 if let Ok(rd) = std::fs::read_dir(dir.join("corrupted")) {
                     for e in rd.flatten() {
                         let name = e.file_name().to_string_lossy().to_string();
@@ -2182,12 +2267,15 @@ impl<const N: usize> ScenN<N> {
                             corrfiles += 1;
                             if let Ok(id) = f[1].parse::<usize>() {
                                 maxfile = maxfile.max(Some(id));
+                                if work_ids.contains(&id) {
+                                    both += 1;
+                                }
                             }
                         }
                     }
                 }
                 format!(
-                    "fcounts blobs={} held={} files={} known={} next={} maxfile={} corr={} corrfiles={} disk={} dirsum={}",
+                    "fcounts blobs={} held={} files={} known={} next={} maxfile={} corr={} corrfiles={} both={} disk={} dirsum={}",
                     st.blobs_count().await,
                     ids.len(),
                     files,
@@ -2196,6 +2284,7 @@ impl<const N: usize> ScenN<N> {
                     maxfile.map(|x| x.to_string()).unwrap_or("-".into()),
                     st.corrupted_blobs_count(),
                     corrfiles,
+                    both,
                     st.disk_used().await,
                     dirsum
                 )
